@@ -960,18 +960,20 @@ class D10(Extra):
 
 
 # ---------------------------------------------------------------- plug-in
-def extend(cls, extra):
-    """A subclass of the discrete-time check `cls` that also runs the dense-time case stream `extra`."""
+def extend(cls, extra, tag='dense'):
+    """A subclass of the check `cls` that also runs the case stream `extra`; `tag` is the flag put into the cases of the
+    stream (tested in every method), so that extensions can be chained: extend(extend(C, A()), B(), tag='b')."""
+    label = 'dense time' if tag == 'dense' else tag
 
     class Ext(cls):
-        RULE = cls.RULE + ' || dense time: ' + extra.RULE
+        RULE = cls.RULE + ' || ' + label + ': ' + extra.RULE
 
         def gen_cases(self, rng, tier):
             base = cls.gen_cases(self, rng, tier)
-            return base + [dict(c, dense=1) for c in extra.gen(rng, tier)]
+            return base + [dict(c, **{tag: 1}) for c in extra.gen(rng, tier)]
 
         def load_case(self, c):
-            if c.get('dense'):
+            if c.get(tag):
                 from harness import shrink
                 c = dict(c)
                 for k in ('f', 'lhs', 'rhs'):
@@ -981,40 +983,42 @@ def extend(cls, extra):
             return cls.load_case(self, c)
 
         def normalize(self, c):
-            return extra.normalize(c) if c.get('dense') else cls.normalize(self, c)
+            return extra.normalize(c) if c.get(tag) else cls.normalize(self, c)
 
         def model_lines(self, c):
-            return extra.model_lines(c) if c.get('dense') else cls.model_lines(self, c)
+            return extra.model_lines(c) if c.get(tag) else cls.model_lines(self, c)
 
         def impl_cases(self, c):
-            return extra.impl_cases(c) if c.get('dense') else cls.impl_cases(self, c)
+            return extra.impl_cases(c) if c.get(tag) else cls.impl_cases(self, c)
 
         def replay_cases(self, c):
-            return extra.impl_cases(c) if c.get('dense') else cls.replay_cases(self, c)
+            return extra.impl_cases(c) if c.get(tag) else cls.replay_cases(self, c)
 
         def judge(self, c, mlines, ires):
-            return extra.judge(c, mlines, ires) if c.get('dense') else cls.judge(self, c, mlines, ires)
+            return extra.judge(c, mlines, ires) if c.get(tag) else cls.judge(self, c, mlines, ires)
 
         def signature(self, c, detail):
-            return extra.signature(c, detail) if c.get('dense') else cls.signature(self, c, detail)
+            return extra.signature(c, detail) if c.get(tag) else cls.signature(self, c, detail)
 
         def key(self, c):
-            return extra.key(c) if c.get('dense') else cls.key(self, c)
+            return extra.key(c) if c.get(tag) else cls.key(self, c)
 
         def nontrivial(self, c):
-            return extra.nontrivial(c) if c.get('dense') else cls.nontrivial(self, c)
+            return extra.nontrivial(c) if c.get(tag) else cls.nontrivial(self, c)
 
         def features(self, c):
-            return extra.features(c) if c.get('dense') else cls.features(self, c)
+            return extra.features(c) if c.get(tag) else cls.features(self, c)
 
         def describe(self, c):
-            return extra.describe(c) if c.get('dense') else cls.describe(self, c)
+            return extra.describe(c) if c.get(tag) else cls.describe(self, c)
 
         def extra_evidence(self):
             ev = dict(cls.extra_evidence(self))
             for k in ('ia_lists', 'ia_online_lists'):
                 if getattr(extra, k, None):
                     ev['dense_' + k + '_compared_with_the_visitor_models'] = getattr(extra, k)
+            if hasattr(extra, 'evidence'):
+                ev.update(extra.evidence())
             return ev
 
     Ext.__name__ = cls.__name__
